@@ -125,6 +125,58 @@ example : affineCoords (K := ℂ) 0 (Complex.I • projCoords 0 ![2, 3]) = ![2, 
 example : (Complex.I • projCoords (K := ℂ) 0 ![2, 3]) 0 ≠ 0 :=
   smul_chart_ne 0 _ _ Complex.I_ne_zero (by rw [projCoords_chart]; exact one_ne_zero)
 
+/-! ## automatic chart choice (`chart_index=None`) -/
+
+section auto
+variable {L : Type*} [LinearOrder L] [Zero L]
+
+/-- if *some* standard chart contains all the points, the chart chosen by
+`affine_coords(points, chart_index=None)` (argmax over charts of the smallest `|coordinate|`)
+contains all of them; `absf` is `np.abs` (any map with `0 ≤ absf x` and `absf x = 0 ↔ x = 0`) -/
+theorem autoChart_contains (absf : K → L) (h0 : ∀ x, 0 ≤ absf x) (hz : ∀ x, absf x = 0 ↔ x = 0)
+    (p₀ : Fin (n + 1) → K) (rest : List (Fin (n + 1) → K))
+    (hex : ∃ c, ∀ x ∈ p₀ :: rest, x c ≠ 0) :
+    ∀ x ∈ p₀ :: rest, x (autoChart absf p₀ rest) ≠ 0 := by
+  obtain ⟨c, hc⟩ := hex
+  obtain ⟨y, hy, hmin⟩ := (colMin_spec absf p₀ rest c).2
+  have hpos : 0 < colMin absf p₀ rest c := by
+    rw [hmin]
+    exact lt_of_le_of_ne (h0 _) (fun h => hc y hy ((hz _).1 h.symm))
+  have hle : colMin absf p₀ rest c ≤ colMin absf p₀ rest (autoChart absf p₀ rest) :=
+    argmaxFirst_spec _ c
+  intro x hx hx0
+  have := (colMin_spec absf p₀ rest (autoChart absf p₀ rest)).1 x hx
+  rw [hx0, (hz 0).2 rfl] at this
+  exact absurd (lt_of_lt_of_le hpos (le_trans hle this)) (lt_irrefl _)
+
+/-- the automatic call raises ("points don't lie in any standard affine chart") exactly when no
+standard chart contains all the points; otherwise it converts every point in the chosen chart -/
+theorem affineCoordsAuto?_eq_none_iff [DecidableEq K] (absf : K → L) (h0 : ∀ x, 0 ≤ absf x)
+    (hz : ∀ x, absf x = 0 ↔ x = 0) (p₀ : Fin (n + 1) → K) (rest : List (Fin (n + 1) → K)) :
+    affineCoordsAuto? absf p₀ rest = none ↔ ∀ c, ∃ x ∈ p₀ :: rest, x c = 0 := by
+  unfold affineCoordsAuto?
+  rw [Option.map_eq_none_iff, affineCoordsAll?_eq_none_iff]
+  constructor
+  · intro h c
+    by_contra hc
+    have hc' : ∀ x ∈ p₀ :: rest, x c ≠ 0 := fun x hx h0' => hc ⟨x, hx, h0'⟩
+    obtain ⟨x, hx, hx0⟩ := h
+    exact autoChart_contains absf h0 hz p₀ rest ⟨c, hc'⟩ x hx hx0
+  · intro h; exact h _
+
+theorem affineCoordsAuto?_eq_some [DecidableEq K] (absf : K → L) (h0 : ∀ x, 0 ≤ absf x)
+    (hz : ∀ x, absf x = 0 ↔ x = 0) (p₀ : Fin (n + 1) → K) (rest : List (Fin (n + 1) → K))
+    (hex : ∃ c, ∀ x ∈ p₀ :: rest, x c ≠ 0) :
+    affineCoordsAuto? absf p₀ rest =
+      some ((p₀ :: rest).map (affineCoords (autoChart absf p₀ rest)), autoChart absf p₀ rest) := by
+  unfold affineCoordsAuto?
+  rw [affineCoordsAll?_eq_some _ _ (autoChart_contains absf h0 hz p₀ rest hex)]
+  rfl
+
+example : autoChart (K := ℚ) (fun x => |x|) ![0, 2, 1] [![3, 1, 0]] = 1 := by decide
+
+end auto
+
 /-! ## affine maps act in the chart as the linear map / the translation -/
 
 /-- `affine_linear_map(L, c, column_vectors=True)`: the chart coordinate is kept and the
